@@ -917,6 +917,9 @@ class SgzReader(object):
         header_array : numpy.ndarray of int32, shape (tracecount)
         """
         self.read_variant_headers(include_padding=True, tracefields=[segyio.tracefield.TraceField(tracefield)])
+        if tracefield not in self.variant_headers:
+            # A field with the same value in every trace is kept in the header template, not as an array
+            return np.full(self.header_entry_length_bytes // 4, self.segy_traceheader_template[tracefield], dtype=np.int32)
         return self.variant_headers[tracefield]
 
     def get_tracefield_values(self, tracefield):
